@@ -34,6 +34,7 @@ type parkedStep struct {
 
 type procState struct {
 	pid     string
+	late    bool // this process' session reads are executed when released but their REPLY is delivered only at a later step of its own
 	replica *replica
 	parked  *parkedStep
 	done    bool
@@ -54,6 +55,7 @@ type scheduler struct {
 	faultAt map[string]int
 	blockAfter time.Duration // > 0: a process that does not settle within this time is considered blocked on an in-process lock
 	dead    map[string]bool
+	clientPids map[string][]string // store-client name (= replica) -> controlled processes served by that replica
 }
 
 func classifyCmd(cmd string, args []string) (string, bool) {
@@ -106,11 +108,22 @@ func classifyCmd(cmd string, args []string) (string, bool) {
 }
 
 func newScheduler(s *sut) *scheduler {
-	sc := &scheduler{s: s, procs: map[string]*procState{}, events: make(chan string, 64), dead: map[string]bool{}}
+	sc := &scheduler{s: s, procs: map[string]*procState{}, events: make(chan string, 64), dead: map[string]bool{}, clientPids: map[string][]string{}}
 	s.installHook(func(p *server.Peer, cmd string, args ...string) bool {
 		name := p.ClientName
 		sc.mu.Lock()
-		ps := sc.procs[name]
+		// which process issued this command: the only one on that replica, or - when several requests are served by one replica - the one that is running
+		var ps *procState
+		switch pids := sc.clientPids[name]; {
+		case len(pids) == 1:
+			ps = sc.procs[pids[0]]
+		case len(pids) > 1:
+			for _, pid := range pids {
+				if pid == sc.current {
+					ps = sc.procs[pid]
+				}
+			}
+		}
 		active := sc.active
 		dead := sc.dead[name]
 		sc.mu.Unlock()
@@ -131,6 +144,21 @@ func newScheduler(s *sut) *scheduler {
 			return true
 		case stepCrash:
 			p.WriteError("ERR connection of a crashed process")
+			return true
+		}
+		if ps.late && what == "GET session" && len(args) > 0 {
+			// the store executes the read NOW; its reply travels back only when this process is scheduled again (a slow network, a busy client)
+			val, err := s.mr.Get(args[0])
+			k := sc.park(ps, "REPLY")
+			if k != stepProceed {
+				p.WriteError("ERR connection of a crashed process")
+				return true
+			}
+			if err != nil {
+				p.WriteNull()
+			} else {
+				p.WriteBulk(val)
+			}
 			return true
 		}
 		return false
@@ -180,6 +208,7 @@ func (sc *scheduler) spawn(pid string, rp *replica, b *browser, method, target s
 	sc.mu.Lock()
 	sc.procs[pid] = ps
 	sc.order = append(sc.order, pid)
+	sc.clientPids[rp.name] = append(sc.clientPids[rp.name], pid)
 	sc.mu.Unlock()
 	ps.parked = &parkedStep{pid: pid, what: "START", reply: make(chan stepKind, 1)}
 	go func(start *parkedStep) {
